@@ -1,6 +1,7 @@
 //! Harness for the server_fn properties. `h_serverfn c13` reads cases on stdin (one sexp
 //! per line) and prints one observation per line.
 mod errs;
+mod fns;
 mod glue;
 mod looprt;
 
@@ -19,6 +20,7 @@ fn c13(c: &vsexp::Sexp) -> vsexp::Sexp {
     match c.at(0).num() {
         0..=6 => errs::run(c),
         7..=9 => glue::run(c),
+        10..=19 => fns::run(c),
         _ => vsexp::Lst(vec![]),
     }
 }
